@@ -386,3 +386,75 @@ def per_channel_noise_data(S):
             bounds='same, with the per-channel noise given to the model as a dictionary (overrides the data)')
 def per_channel_noise_model(S):
     _per_channel_body(S, 'model')
+
+
+@obligation('C12.constraint.three_spheres', functions=[MM + 'Model.lnprior', MM + 'Model._lnprior', MM + 'LimitOverlaps.check',
+                                                       'holopy.scattering.scatterer.spherecluster.Spheres.largest_overlap',
+                                                       MM + 'Model.scatterer_from_parameters'],
+            max_paths=400, timeout_s=120, nvalid=2, stubs=['theory := counting stub (never called by lnprior)'],
+            bounds='three spheres of radius 0.5 on a line at x = 0, 5 and a fitted position (Uniform(-2, 8)), '
+                   'LimitOverlaps(0.1): lnprior is -inf exactly when the movable sphere overlaps EITHER fixed sphere '
+                   '(first-third and second-third pairs) by more than 0.1, or leaves the prior support')
+def constraint_three_spheres(S):
+    setup(S)
+    theory = make_stub_theory(S, log=[], tagger=_tag, by_position=True)
+    px = Uniform(-2.0, 8.0, name='x3')
+    spheres = Spheres([Sphere(n=1.59, r=0.5, center=(0.0, 0.0, 3.0)), Sphere(n=1.58, r=0.5, center=(5.0, 0.0, 3.0)),
+                       Sphere(n=1.57, r=0.5, center=(px, 0.0, 3.0))], warn=False)
+    model = AlphaModel(spheres, alpha=1.0, theory=theory, constraints=[LimitOverlaps(0.1)])
+    S.claim('one_parameter', len(model.parameters) == 1)
+    vx = S.real('v_x')
+    S.observe('v_x', vx)
+    lp = model.lnprior({list(model.parameters)[0]: vx})
+    inside = ((vx >= -2.0) & (vx <= 8.0)) if S.sym else (-2.0 <= vx <= 8.0)
+    ok0 = (1 - abs(vx) <= 0.1)
+    ok1 = (1 - abs(vx - 5.0) <= 0.1)
+    finite = (inside & ok0 & ok1) if S.sym else (inside and ok0 and ok1)
+    S.claim_iff('minus_inf_iff_outside_or_any_pair_overlaps', _is_minf(lp),
+                ~finite if S.sym and not isinstance(finite, bool) else (not finite))
+    if not _is_minf(lp):
+        S.claim_eq('prior_value', lp, _uniform_ln(-2.0, 8.0))
+
+
+@obligation('C12.many_parameters', functions=['holopy.core.mapping.read_map', MM + 'Model.scatterer_from_parameters',
+                                              MM + 'Model.lnprior'],
+            timeout_s=120, nvalid=2, stubs=['theory := counting stub (never called)'],
+            bounds='12 fitted parameters (four spheres with fitted x, y and r; indices 10 and 11 have two digits): every '
+                   'value of a symbolic parameter vector reaches its own place and lnprior is the sum of the 12 '
+                   'log-densities')
+def many_parameters(S):
+    setup(S)
+    theory = make_stub_theory(S, log=[], tagger=_tag, by_position=True)
+    pri = [[Uniform(0.0 + 10 * k, 1.0 + 10 * k), Uniform(0.0, 2.0), Uniform(0.1, 0.5)] for k in range(4)]
+    from holopy.scattering.scatterer import Scatterers
+    sc = Scatterers([Sphere(n=1.5 + 0.01 * k, r=pri[k][2], center=(pri[k][0], pri[k][1], 3.0)) for k in range(4)])
+    model = AlphaModel(sc, alpha=1.0, theory=theory)
+    S.claim('twelve_parameters', len(model.parameters) == 12)
+    if len(model.parameters) != 12:
+        return
+    names = list(model.parameters)
+    vals = [S.real(f'v{i}') for i in range(12)]
+    for i, p in enumerate(model._parameters):
+        S.assume(vals[i] >= p.lower_bound)
+        S.assume(vals[i] <= p.upper_bound)
+    S.observe('v11', vals[11])
+    # x priors are distinguishable by their bounds; y and r priors by the order of appearance
+    for tag, given in (('list', vals), ('by_name', dict(zip(names, vals)))):
+        got = model.scatterer_from_parameters(given)
+        seen_y = seen_r = 0
+        for i, p in enumerate(model._parameters):
+            if p.upper_bound - p.lower_bound == 1.0 and (p.lower_bound / 10) == int(p.lower_bound / 10) and \
+                    (p.lower_bound, p.upper_bound) != (0.0, 2.0):
+                k = int(p.lower_bound / 10)
+                S.claim_eq(f'{tag}.x{k}', got.scatterers[k].center[0], vals[i])
+            elif (p.lower_bound, p.upper_bound) == (0.0, 2.0):
+                S.claim_eq(f'{tag}.y{seen_y}', got.scatterers[seen_y].center[1], vals[i])
+                seen_y += 1
+            else:
+                S.claim_eq(f'{tag}.r{seen_r}', got.scatterers[seen_r].r, vals[i])
+                seen_r += 1
+        S.claim(f'{tag}.all_places_seen', seen_y == 4 and seen_r == 4)
+    lp = model.lnprior(vals)
+    ref = 4 * _uniform_ln(0.0, 1.0) + 4 * _uniform_ln(0.0, 2.0) + 4 * _uniform_ln(0.1, 0.5)
+    # all twelve log-densities are concrete floats on this path: compare up to summation order
+    S.claim('lnprior_sum', bool(abs(lp - ref) < 1e-9))
